@@ -20,7 +20,16 @@ class _E(str):
     pass
 
 
-ENV = {"E": lambda x: _E(x), "nan": NAN, "inf": INF, "S": _S, "B": _B, "V": lambda x: x, "complex": complex, "__builtins__": {}}
+_NS = {"s": 10**9, "ms": 10**6, "us": 10**3, "ns": 1}
+
+
+def _D(ticks, fmt):
+    """a datetime64 / timedelta64 scalar as (kind, nanoseconds): the value, whatever unit it is stored in"""
+    unit = fmt[fmt.index("[") + 1:fmt.index("]")]
+    return ("dt" if fmt[0] == "M" else "td", ticks * _NS[unit])
+
+
+ENV = {"D": _D, "E": lambda x: _E(x), "nan": NAN, "inf": INF, "S": _S, "B": _B, "V": lambda x: x, "complex": complex, "__builtins__": {}}
 
 
 class Result:
